@@ -10,6 +10,7 @@ import (
 	"net"
 	"os"
 	"path/filepath"
+	"sort"
 	"sync"
 	"sync/atomic"
 	"testing"
@@ -232,6 +233,13 @@ func startWatches(ctx context.Context, t testing.TB, st state.State) map[string]
 	single("one-a", func(ch chan state.Event) error {
 		return st.Watch(ctx, vh.Key{NS: "n1", Typ: vh.IntType, ID: "a"}.Pointer(), ch)
 	})
+	// the empty string is a legal resource ID; on the wire only the PRESENCE of the id distinguishes a resource watch from a kind watch
+	single("one-empty-id", func(ch chan state.Event) error {
+		return st.Watch(ctx, vh.Key{NS: "n1", Typ: vh.IntType, ID: ""}.Pointer(), ch)
+	})
+	single("one-b-str-tail", func(ch chan state.Event) error {
+		return st.Watch(ctx, vh.Key{NS: "n1", Typ: vh.StrType, ID: "b"}.Pointer(), ch, state.WithTailEvents(2))
+	})
 	single("kind-bootstrap", func(ch chan state.Event) error {
 		return st.WatchKind(ctx, kind, ch, state.WithBootstrapContents(true))
 	})
@@ -321,7 +329,14 @@ func runBehaviour(t *testing.T, tr *vh.Trace, tid string, beh []vh.Req, legacy b
 
 	time.Sleep(20 * time.Millisecond)
 
-	for _, name := range []string{"one-a", "kind-bootstrap", "kind-label", "kind-notlabel-in", "agg-str"} {
+	names := make([]string, 0, len(dw))
+	for name := range dw {
+		names = append(names, name)
+	}
+
+	sort.Strings(names)
+
+	for _, name := range names {
 		tr.Emit(map[string]any{"ev": "watch", "tid": tid, "w": name, "d": dw[name].snapshot(), "r": rw[name].snapshot()})
 	}
 
